@@ -672,6 +672,12 @@ func FFilterMR(key, cmp string, sw bool, rk string, rf Frag) Frag {
 	return Frag{"f": "filter", "op": "mr", "key": key, "cmp": cmp, "sw": sw, "rk": rk, "rf": rf, "c": Null()}
 }
 
+// FFilterMC is `@.key<fr> <cmp> c` (sw: `c <cmp> @.key<fr>`): a multi-valued `@` operand (fr a wildcard, slice or index union) against a
+// scalar constant; cmp is "eq" or "ne".
+func FFilterMC(key string, fr Frag, cmp string, sw bool, c Node) Frag {
+	return Frag{"f": "filter", "op": "mc", "key": key, "fr": fr, "cmp": cmp, "sw": sw, "c": c}
+}
+
 // FFilterCmp is `@.key <cmp> c` (key "" : `@ <cmp> c`; sw: `c <cmp> @.key`), cmp in lt, gt, le, ge, c an int or a float node.
 func FFilterCmp(key, cmp string, sw bool, c Node) Frag {
 	f := Frag{"f": "filter", "op": "cmps", "cmp": cmp, "sw": sw, "c": c}
@@ -735,6 +741,25 @@ func equationOf(f Frag) *jp.Equation {
 		}
 	}
 	switch op {
+	case "mc":
+		fr, _ := f["fr"].(map[string]any)
+		var x jp.Expr
+		switch fr["f"] {
+		case "wild":
+			x = jp.A().C(key).W()
+		case "union":
+			x = Expr([]Frag{FAt(), FChild(key), fr})
+		default:
+			x = append(jp.A().C(key), SliceOf(fr))
+		}
+		l, r := jp.Get(x), ce
+		if sw, _ := f["sw"].(bool); sw {
+			l, r = r, l
+		}
+		if f["cmp"] == "ne" {
+			return jp.Neq(l, r)
+		}
+		return jp.Eq(l, r)
 	case "cmpk", "cmps":
 		operand := jp.Get(jp.A())
 		if op == "cmpk" {
